@@ -402,8 +402,8 @@ func (s *Serializer) blocks(bs []*Block, col int) []sline {
 			inner := s.blocks(b.Kids, col+len(marker))
 			for _, l := range inner {
 				m := marker
-				if m == ">" && strings.HasPrefix(l.pre+l.text, " ") {
-					m = "> " // the marker may only swallow its own optional space
+				if m == ">" && (strings.HasPrefix(l.pre+l.text, " ") || strings.HasPrefix(l.pre+l.text, "\t")) {
+					m = "> " // the marker may only swallow its own optional space (a tab would be split)
 				}
 				l.pre = m + l.pre
 				out = append(out, l)
